@@ -81,7 +81,7 @@ func ValidateLabel(label LabelDescriptor) error {
 	if label.BundleID == "" {
 		return fmt.Errorf("empty field: label bundleID is empty")
 	}
-	for i, c := range label.Name {
+	for _, c := range label.Name {
 		// Note: useful reference https://www.compart.com/en/unicode/category
 		if !unicode.IsDigit(c) &&
 			!unicode.IsLetter(c) &&
@@ -89,7 +89,7 @@ func ValidateLabel(label LabelDescriptor) error {
 			!unicode.Is(unicode.Pc, c) {
 			return fmt.Errorf("invalid name: label name:%s contains unsupported character \"%s\"",
 				label.Name,
-				string([]rune(label.Name)[i]))
+				string(c))
 		}
 	}
 	for _, c := range label.Contributors {
